@@ -33,13 +33,16 @@ def run(tier, seed):
                                                     ScopeMenu="<- Scopes4" if big else "<- Scopes3", SampleN=1 if big else 4), timeout=7200)
     ac.replay(ctx, r.exports["PROG"], describe=describe)
     ac.trace_authorize(ctx, r.exports["PROG"], 1500 if big else 250, "policies")
+    # an authorizer without a token (build_unauthenticated): every scope word still has a meaning
+    r = ac.run_universe(ctx, "noauth", ac.consts(Universe='"noauth"', MaxBlocks=1, Exts="<- ExtsOne", ScopeMenu="<- Scopes4"))
+    ac.replay(ctx, r.exports["PROG"], describe=describe)
     return ctx.finish(
         rule="One TLC state = one (token, authorizer) program from scope-complete universes: `checks` (1..3 blocks, first/third-party "
              "with two external keys, one derivation rule and one check of each kind in every owner incl. the authorizer, every scope on block, "
              "rule and check), `alts` (checks with two alternatives, every kind), `policies` (ordered pairs of allow/deny policies with scopes). "
              "The spec computes the authorization result (matched policy, ordered failed checks), the final world with origins and three queries; "
              "each exported state is built with the real builders/keys and authorize(), the world (hook verif_facts), query() and query_all() are compared. "
-             "Implementation -> spec: for a sample of each universe the decision events of authorize() (hook H2: owner, index, trusted origins, result of every evaluated alternative) "
+             "Universe `noauth`: authorizers built without a token. Every replay also compares query, query_all and query_exactly_one (the single fact, or the number found). Implementation -> spec: for a sample of each universe the decision events of authorize() (hook H2: owner, index, trusted origins, result of every evaluated alternative) "
              "are validated by TLC against AuthorizerTrace.tla (evaluation order, short-circuit rules per kind, trusted origins, final result). distinct_nontrivial = number of distinct programs replayed.",
         exhaustive=big)
 
